@@ -290,7 +290,9 @@ impl<'a> Source<'a> {
         // Transform gradient to center of gradient
         let translate = Transform::translation(center.x, center.y);
         // Compute final transform
-        let transform = scale.then(&translate).inverse().unwrap();
+        // a radius so small that its square underflows is not invertible: like
+        // new_linear_gradient, fall back to some degenerate matrix
+        let transform = scale.then(&translate).inverse().unwrap_or(Transform::scale(0., 0.));
 
         Source::RadialGradient(gradient, spread, transform)
     }
